@@ -2,6 +2,7 @@
 import os, sys
 sys.path.insert(0, os.path.dirname(os.path.abspath(__file__)))
 from gen_common import *
+from oracles.descr import is_boxed_name
 import c01, c08
 
 ID = "C18"
@@ -73,7 +74,7 @@ def compare_standalone(reg, st, ti, vi, struct_toks, module_toks, m=None):
     # boxes: a field is boxed iff the recorded type name says so
     for a, r in zip(sf, rfields):
         boxed = a["ty"][0] == "path" and a["ty"][2][-1] == "Box"
-        if boxed != ("Box<" in (r.get("type_name") or "")): probs.append("field %s Box wrapper %s but recorded type name is %r" % (a["name"], boxed, r.get("type_name")))
+        if boxed != is_boxed_name(r.get("type_name")): probs.append("field %s Box wrapper %s but recorded type name is %r" % (a["name"], boxed, r.get("type_name")))
     # (c) derives = global derives + attributes, + CompactAs iff configured and single primitive unsigned field
     gd = set(c08.norm(x.split(" ", 1)[1]) for x in st.d if x.startswith("derive_all ")); ga = set(c08.norm(x.split(" ", 1)[1]) for x in st.d if x.startswith("attrtok_all "))
     ca = st.get("compact_as_path")
@@ -110,7 +111,7 @@ def make_family(name, reg0, st, ti, vi):
 
 def families(eng, tier, seed):
     C = corpus(); fams = []; sets = SETS if tier == "thorough" else SETS[:4]
-    for n in ("calls", "enum", "compact_enum", "compact", "containers", "collections", "compact_as", "reach", "bits", "rec", "single", "tup", "prims"):
+    for n in ("calls", "enum", "compact_enum", "compact", "containers", "collections", "compact_as", "reach", "bits", "rec", "single", "tup", "prims", "lookalikes_enum", "lookalikes"):
         r = C[n]
         for ti in user_ids(r):
             t = r[ti]
